@@ -194,6 +194,7 @@ type Exec struct {
 	refAx   map[string]bool
 	known   map[string]bool
 	freshOnly map[string]bool
+	usedFns   map[string]bool   // spec fns applied while generating this function's obligations
 	drySorts  map[string]string // sorts of heap keys seen modified in loop dry runs
 	wfDone    map[string]bool   // heap versions that already carry the well-typed-heap fact
 	termNames map[string]string // nameTerm memo
